@@ -295,16 +295,13 @@ impl<P: Pairing> PrimeGroup for PairingOutput<P> {
     }
 
     fn mul_bits_be(&self, other: impl Iterator<Item = bool>) -> Self {
-        // Convert back from bits to [u64] limbs
+        // Convert back from big-endian bits to little-endian [u64] limbs:
+        // the last 64 bits form the least significant limb, and inside a
+        // limb the first bit is the most significant one.
         let other = other
             .collect::<Vec<_>>()
-            .chunks(64)
-            .map(|chunk| {
-                chunk
-                    .iter()
-                    .enumerate()
-                    .fold(0, |r, (i, bit)| r | u64::from(*bit) << i)
-            })
+            .rchunks(64)
+            .map(|chunk| chunk.iter().fold(0u64, |r, bit| (r << 1) | u64::from(*bit)))
             .collect::<Vec<_>>();
         Self(self.0.cyclotomic_exp(&other))
     }
